@@ -1728,3 +1728,16 @@ package spec
 //@   requires len(v.Schemas) >= 0 && (v.Schema != nil ==> schemaFP(*v.Schema)) && (len(v.Schemas) > 0 ==> schemasFP(v.Schemas))
 //@   ensures  [C07] encoded-form-decodes @@ result0 != nil ==> result1 != nil
 //@   ensures  [C07] fixed-point @@ result0 != nil && result1 != nil ==> jv(result1) == jv(result0)
+
+// ---- ordering of schema properties (C06)
+//@ func verifLemmaLessTotal
+//@   property C06
+//@   requires 0 <= i && i < len(items) && 0 <= j && j < len(items)
+//@   ensures  [C06] asymmetric @@ !(result0 && result1)
+//@   ensures  [C06] total-on-distinct-names @@ items[i].Name != items[j].Name ==> result0 || result1
+//@   ensures  [C06] irreflexive @@ i == j ==> !result0
+
+//@ func verifLemmaLessTransitive
+//@   property C06
+//@   requires 0 <= i && i < len(items) && 0 <= j && j < len(items) && 0 <= k && k < len(items)
+//@   ensures  [C06] transitive @@ result0 && result1 ==> result2
